@@ -83,4 +83,66 @@ theorem approximate_catmull_spans (pts : List (Pos P)) (h2 : 2 ≤ pts.length) :
 
 end Structural
 
+-- numerals below are Mathlib's real numerals; the model's literals are translated by `rLit` / `rHalf`
+attribute [-instance] Scalar.instOfNat Scalar.instOfScientific
+
+/-! ### the model's arithmetic at the real instance is the arithmetic of `ℝ` -/
+
+theorem rAdd (a b : ℝ) : @HAdd.hAdd ℝ ℝ ℝ (@instHAdd ℝ (@Scalar.toAdd ℝ scalarReal)) a b = a + b := rfl
+theorem rSub (a b : ℝ) : @HSub.hSub ℝ ℝ ℝ (@instHSub ℝ (@Scalar.toSub ℝ scalarReal)) a b = a - b := rfl
+theorem rMul (a b : ℝ) : @HMul.hMul ℝ ℝ ℝ (@instHMul ℝ (@Scalar.toMul ℝ scalarReal)) a b = a * b := rfl
+theorem rDiv (a b : ℝ) : @HDiv.hDiv ℝ ℝ ℝ (@instHDiv ℝ (@Scalar.toDiv ℝ scalarReal)) a b = a / b := rfl
+theorem rNeg (a : ℝ) : @Neg.neg ℝ (@Scalar.toNeg ℝ scalarReal) a = -a := rfl
+theorem rLit (n : Nat) : @OfNat.ofNat ℝ n (@Scalar.instOfNat ℝ scalarReal n) = ((n : ℕ) : ℝ) := rfl
+theorem rOfNat (n : Nat) : (@Scalar.ofNat ℝ scalarReal n) = ((n : ℕ) : ℝ) := rfl
+/-- the literal `0.5` of `catmull_subpath` is `1/2`. -/
+theorem rHalf : @OfScientific.ofScientific ℝ (@Scalar.instOfScientific ℝ scalarReal) 5 true 1 = (1 / 2 : ℝ) := by
+  show ((5 : ℕ) : ℝ) / (10 : ℝ) ^ 1 = 1 / 2; norm_num
+
+/-! ### the exact span curve -/
+
+/-- one coordinate of the uniform Catmull-Rom cubic, the polynomial `catmull_subpath` evaluates:
+`0.5 · (2 b + (−a + c) t + (2a − 5b + 4c − d) t² + (−a + 3b − 3c + d) t³)`. -/
+noncomputable def catmullCoord (a b c d t : ℝ) : ℝ :=
+  1 / 2 * (2 * b + (-a + c) * t + (2 * a - 5 * b + 4 * c - d) * t ^ 2 + (-a + 3 * b - 3 * c + d) * t ^ 3)
+
+/-- the exact curve of a span as a `Pos`. -/
+noncomputable def catmullExactPos (v1 v2 v3 v4 : Pos ℝ) (t : ℝ) : Pos ℝ :=
+  ⟨catmullCoord v1.x v2.x v3.x v4.x t, catmullCoord v1.y v2.y v3.y v4.y t⟩
+
+/-- **the exact curve of a span**, `t ∈ [0, 1]`, as a point of the plane. -/
+noncomputable def catmullExact (v1 v2 v3 v4 : Pos ℝ) (t : ℝ) : ℝ × ℝ :=
+  (catmullCoord v1.x v2.x v3.x v4.x t, catmullCoord v1.y v2.y v3.y v4.y t)
+
+theorem toPair_catmullExactPos (v1 v2 v3 v4 : Pos ℝ) (t : ℝ) :
+    toPair (catmullExactPos v1 v2 v3 v4 t) = catmullExact v1 v2 v3 v4 t := rfl
+
+/-- the cubic in the standard basis form of the rational theorem (`catmullRomStd`, Lemmas/CatmullRing.lean). -/
+theorem catmullCoord_std (a b c d t : ℝ) :
+    catmullCoord a b c d t =
+      ((-t ^ 3 + 2 * t ^ 2 - t) * a + (3 * t ^ 3 - 5 * t ^ 2 + 2) * b + (-3 * t ^ 3 + 4 * t ^ 2 + t) * c +
+        (t ^ 3 - t ^ 2) * d) / 2 := by
+  unfold catmullCoord; ring
+
+/-- the span curve runs from `v2` to `v3`. -/
+theorem catmullExact_zero (v1 v2 v3 v4 : Pos ℝ) : catmullExact v1 v2 v3 v4 0 = toPair v2 := by
+  unfold catmullExact catmullCoord toPair; ext <;> simp
+theorem catmullExact_one (v1 v2 v3 v4 : Pos ℝ) : catmullExact v1 v2 v3 v4 1 = toPair v3 := by
+  unfold catmullExact catmullCoord toPair; ext <;> simp only <;> ring
+
+/-- **`catmull_points_on_spline_real`** (real version of `catmull_points_on_spline`): over ℝ `catmull_subpath` emits, for
+`c = 0..49`, exactly the points `catmullExact` at `t = c/50` and at `t = (c+1)/50`. -/
+theorem catmull_points_on_spline_real (v1 v2 v3 v4 : Pos ℝ) :
+    catmullSubpath v1 v2 v3 v4 =
+      (List.range 50).flatMap fun (c : Nat) =>
+        [catmullExactPos v1 v2 v3 v4 ((c : ℝ) / 50), catmullExactPos v1 v2 v3 v4 (((c : ℝ) + 1) / 50)] := by
+  unfold catmullSubpath catmullPoint catmullExactPos catmullCoord
+  simp only [rAdd, rSub, rMul, rDiv, rNeg, rLit, rOfNat, rHalf]
+  congr 1
+  funext c
+  congr 1
+  · congr 1 <;> (push_cast; ring)
+  · congr 1
+    congr 1 <;> (push_cast; ring)
+
 end Rosu.C17
